@@ -74,6 +74,8 @@ BigRuns == {<<49, 46>> \o Dg(r) \o <<45, 49>> : r \in {<<1,8,4,4,6,7,4,4,0,7,3,7
                                                        <<9,2,2,3,3,7,2,0,3,6,8,5,4,7,7,5,8,0,8>>}}
 VerTexts == {<<49, 46, 48>>, <<49, 46, 48, 48>>, <<49, 46, 48, 45, 48>>, <<49, 46, 48, 126, 114, 99, 49>>, <<49, 46, 48, 43, 98, 49>>,
              <<50, 58, 48, 46, 49>>, <<48>>, <<49, 46, 48, 45, 49>>, <<57>>, <<49, 48>>} \cup BigRuns
+            \* punctuation against letters and against other punctuation: 1.0.1  1a  1.a  1+  1.  1.0a  1.0+
+            \cup {<<49, 46, 48, 46, 49>>, <<49, 97>>, <<49, 46, 97>>, <<49, 43>>, <<49, 46>>, <<49, 46, 48, 97>>, <<49, 46, 48, 43>>}
 BadN == {<<>>, <<97, 98, 99>>, <<49, 32, 48>>, <<45, 49, 58, 48>>, <<49, 46, 48, 95, 120>>}
 SatVecs == {[k |-> "sat", op |-> op, n |-> n, v |-> Classify(v).v] : op \in Ops, n \in VerTexts \cup BadN, v \in VerTexts}
 
